@@ -6,7 +6,7 @@
    contract (`feas`) says which events may happen given those obligations. *)
 From Coq Require Import List Arith NArith Bool Lia.
 From Coq Require Import ZifyBool ZifyNat ZifyN.
-From V.Mgr Require Import Model Caps Ledger.
+From V.Mgr Require Import DialShape Model Caps Ledger.
 Import ListNotations.
 Open Scope N_scope.
 
@@ -55,6 +55,12 @@ Definition gstep (e : ev) (os : list out) (g : ghost) : ghost :=
   let new_att := match e with
                  | CmdDialPeer p _ | CmdDialAddr p _ =>
                      if ret_ok os then map (fun c => (c, p)) (opens ++ dialnegs) else []
+                 | CmdDialShape a =>
+                     (* the peer dialled is the one named by the address *)
+                     match dial_shape LISTEN a with
+                     | SvTcp p => if ret_ok os then map (fun c => (c, p)) (opens ++ dialnegs) else []
+                     | _ => []
+                     end
                  | _ => [] end in
   mkG (opens ++ removes (answered_open ++ cancels) (g_open g))
       (dialnegs ++ removes answered_neg (g_neg g))
@@ -81,6 +87,7 @@ Definition feas (m : mgr) (g : ghost) (e : ev) : Prop :=
   | AcceptDone c ok => ok = true /\ In c (keys (accepting m))    (* protocols are alive *)
   | Closed _ _ => True
   | AllocConn => True
+  | CmdDialShape _ => True      (* any multiaddress may be handed to the dial API *)
   end.
 
 Definition owed (g : ghost) (c : conn) : Prop := In c (g_open g) \/ In c (g_neg g).
@@ -190,13 +197,14 @@ Definition quiet (os : list out) : Prop :=
 
 Lemma gstep_quiet_cmd e os g :
   quiet os ->
-  match e with CmdDialPeer _ _ | CmdDialAddr _ _ | CmdAddAddr _ | TrPendingInbound _ | Closed _ _ => True | _ => False end ->
+  match e with CmdDialPeer _ _ | CmdDialAddr _ _ | CmdAddAddr _ | TrPendingInbound _ | Closed _ _
+             | CmdDialShape _ => True | _ => False end ->
   gstep e os g = g.
 Proof.
   intros (H1 & H2 & H3 & H4 & H5 & H6 & H7) He. unfold gstep. rewrite H1, H2, H3, H5, H6.
   destruct g as [go gn ga gd gs gl gi gr].
   destruct e; try contradiction; cbn [app g_open g_neg g_att g_done g_super g_limrej g_inb g_rep];
-    rewrite ?removes_nil; try (destruct (ret_ok os)); reflexivity.
+    rewrite ?removes_nil; try (destruct (dial_shape LISTEN a)); try (destruct (ret_ok os)); reflexivity.
 Qed.
 
 Lemma ret_ok_1 c : ret_ok [CallOpen c; Ret RET_OK] = true. Proof. reflexivity. Qed.
@@ -946,6 +954,53 @@ Proof.
     repeat split; intros H; apply (Hfresh (next_conn m)); auto 10.
 Qed.
 
+
+Lemma gstep_shape_tcp a p os g :
+  dial_shape LISTEN a = SvTcp p -> gstep (CmdDialShape a) os g = gstep (CmdDialAddr p false) os g.
+Proof. intros H. unfold gstep. now rewrite H. Qed.
+
+Lemma linv_dial_addr_missing L m g p :
+  LInv m g -> LInv (fst (do_dial_addr_missing L m p)) g.
+Proof.
+  intros I. unfold do_dial_addr_missing.
+  destruct (limit_reached (max_out L) (outs m)); [exact I|].
+  assert (I0 : LInv (set_known (bump_conn m) p) g).
+  { eapply linv_frame; [| | | |exact I]; try reflexivity. cbn [set_known bump_conn next_conn]. lia. }
+  rewrite so_known, so_bump.
+  destruct (can_dial (state_of m p)) eqn:Eg; try exact I0.
+  cbn [fst]. apply can_dial_ok in Eg.
+  assert (Hcl : st_on_dial_failure (Dialing (next_conn m)) (next_conn m) = Disconnected None).
+  { cbn [st_on_dial_failure]. assert (next_conn m =? next_conn m = true) as -> by lia. reflexivity. }
+  rewrite Hcl.
+  apply (linv_same_record (set_known (bump_conn m) p) g p (Disconnected None)); auto.
+  - intros q. rewrite !state_of_set_state. destruct (q =? p); reflexivity.
+  - rewrite so_known, so_bump, Eg. reflexivity.
+  - intros x. rewrite so_known, so_bump, Eg. split; discriminate.
+Qed.
+
+Lemma linv_dial_shape L m g a :
+  LInv m g ->
+  LInv (fst (do_dial_shape L m a)) (gstep (CmdDialShape a) (snd (do_dial_shape L m a)) g).
+Proof.
+  intros I. unfold do_dial_shape.
+  destruct (limit_reached (max_out L) (outs m)).
+  { cbn [fst snd]. rewrite gstep_quiet_cmd; [exact I | apply quiet_ret; reflexivity | exact Logic.I]. }
+  destruct (dial_shape LISTEN a) as [code|p|p] eqn:Es.
+  - cbn [fst snd].
+    assert (Hcode : code < RET_ALLOC).
+    { unfold dial_shape in Es.
+      repeat match type of Es with
+             | context [match ?x with _ => _ end] => destruct x; try discriminate
+             | context [if ?b then _ else _] => destruct b; try discriminate
+             end; injection Es as <-; reflexivity. }
+    rewrite gstep_quiet_cmd; [exact I | now apply quiet_ret | exact Logic.I].
+  - rewrite (gstep_shape_tcp a p _ g Es). now apply linv_dial_addr.
+  - assert (Hq : quiet (snd (do_dial_addr_missing L m p))).
+    { unfold do_dial_addr_missing. destruct (limit_reached _ _); [apply quiet_ret; reflexivity|].
+      destruct (can_dial _); apply quiet_ret; reflexivity. }
+    rewrite gstep_quiet_cmd; [now apply linv_dial_addr_missing | exact Hq | exact Logic.I].
+Qed.
+
 Lemma linv_init : LInv init g0.
 Proof.
   split; cbn; try (intros; discriminate); try (intros; tauto); try constructor.
@@ -956,7 +1011,7 @@ Qed.
 Theorem linv_step L m g e :
   LInv m g -> feas m g e -> LInv (fst (step L m e)) (gstep e (snd (step L m e)) g).
 Proof.
-  intros I He. destruct e as [p f|p f|p|c pa|c f|c pa|p c lst f|c|c ok|p c|]; cbn [step feas] in *.
+  intros I He. destruct e as [p f|p f|p|c pa|c f|c pa|p c lst f|c|c ok|p c| |a]; cbn [step feas] in *.
   - subst f. now apply linv_dial_peer.
   - subst f. now apply linv_dial_addr.
   - cbn [fst snd]. rewrite gstep_quiet_cmd; [|apply quiet_nil|exact Logic.I].
@@ -975,6 +1030,7 @@ Proof.
     rewrite gstep_quiet_cmd; [exact K| |exact Logic.I].
     destruct rep; unfold quiet, alloc_of; cbn; repeat split.
   - cbn [fst snd]. now apply linv_alloc.
+  - now apply linv_dial_shape.
 Qed.
 
 (* ---------- histories ---------- *)
